@@ -1043,8 +1043,10 @@ def run(ck):
         "equal to Assign.round_robin by the generic tactic Proofs/AssignGenTac.v (trusted: the translator's reading of Python statements as "
         "the combinators of Model/AssignPy.v - sets as duplicate-free lists in the order Assign.all_topics uses, dicts as association lists, "
         "itertools.cycle as (list, index), `while` with a fuel argument and the theorem quantified over every fuel >= number of members); "
-        "generate_assignments' wrapping, decode_assignment, join_group_protocols and the codecs are NOT translated (tie B only); this run: "
-        + ck.cov["translator_tie"],
+        "part 2 of the tie translates generate_assignments' wrapping, decode_assignment and join_group_protocols the same way and proves them "
+        "equal to Assign.generate_assignments_raw / decode_assignment / enc_metadata (Props/C15genwrap.v); the KafkaCodec functions they call "
+        "appear as the model's codec functions, whose own source ties are C04gen / C05gen; this run: _round_robin_assignment "
+        + ck.cov["translator_tie"] + "; wrapping " + ck.cov.get("translator_tie_wrapping", "?"),
         "hand-written Gallina model Model/Assign.v stands for afkak/_group.py:572-653 and kafkacodec.py:1002-1025,1120-1150 with the "
         "_util.py readers/writers they use (tie checked by this run's correspondence only)",
         "a Python str is modelled as the list of its code points; CPython orders str by code point and tuples lexicographically, and "
